@@ -27,8 +27,8 @@ RULE = ("three workloads. ops: seeded sequences (6-20 steps) of write / write_js
         "the operation program; non-trivial = the program contains a listing or existence query after >= 2 writes, a "
         "seek past a buffer boundary, or a fired fault.")
 ASSUMPTIONS = common.BASE_ASSUMPTIONS + [
-    "the local backend is the reference model for the sequence-equivalence half; exists() is compared on file keys only "
-    "(directories exist only locally)",
+    "the local backend is the reference model for the sequence-equivalence half, except for exists(), where the stated "
+    "contract (exact keys only) is the reference for both",
 ]
 COMPONENTS = common.COMPONENTS
 EXPECT_PROBES = ["listing_compared", "notfound_compared", "seek_program", "range_requests", "transient_masked",
@@ -58,7 +58,7 @@ def gen(rng: random.Random, tier: str, idx: int) -> dict:
             elif r < 0.55:
                 prog.append(["open_file", k])
             elif r < 0.67:
-                prog.append(["exists", k])
+                prog.append(["exists", rng.choice([k, k, "data", "metadata", "data/sub", "data/", "metadata/inflight"])])
             elif r < 0.82:
                 prog.append(["list", rng.choice(PREFIXES)])
             elif r < 0.9:
@@ -183,6 +183,7 @@ def execute(plan: dict, scratch: str, replay: Optional[dict] = None) -> dict:
         if mode == "ops":
             nw = 0
             written_dirs = set()
+            live = set()
             for i, step in enumerate(plan["prog"]):
                 if step[0] in ("write", "write_json"):
                     # a key cannot be both a file and a directory on a filesystem; keep the key space consistent
@@ -190,8 +191,22 @@ def execute(plan: dict, scratch: str, replay: Optional[dict] = None) -> dict:
                     nw += 1
                 a = _apply(loc, step)
                 b = _apply(s3, step)
-                if step[0] == "exists" and os.path.isdir(os.path.join(local_root, step[1])):
+                if step[0] in ("write", "write_json") and not (isinstance(a, tuple) and a[0] == "exc"):
+                    live.add(step[1])
+                if step[0] == "delete":
+                    live.discard(step[1])
+                if step[0] == "exists" and step[1].endswith("/"):
+                    # a directory question is not a question about an exact key: with no key under the name, a file system
+                    # may still hold the EMPTY directory (S3 cannot) - the stated contract fixes the answer only when a key
+                    # lives under it (both True); with none, S3 must say False and the local answer is unconstrained
+                    under = any(k.startswith(step[1]) for k in live)
+                    want = ("bool", under)
+                    if b != want or (under and a != want):
+                        violations.append({"clause": "B.backends_differ",
+                                           "msg": f"step {i} {step}: directory query with {'a' if under else 'no'} key under "
+                                                  f"it: local -> {a}, s3 -> {b}", "sig": "B.backends_differ|exists_dir"})
                     continue
+                # (exists() on a name that is a directory locally is compared too: "existence of exact keys only")
                 if step[0] == "list":
                     sim.probe("listing_compared")
                     if nw >= 2:
